@@ -364,7 +364,7 @@ def gen_case(rnd, j):
         case["seed"] = gen.rbytes(rnd, rnd.choice([16, 32, 64, 64]))
         case["purpose"] = rnd.choice([44, 49, 84])
     r = rnd.random()
-    case["account"] = 0 if r < 0.3 else (1 if r < 0.4 else (H - 2 if r < 0.5 else (H - 1 if r < 0.6 else rnd.randrange(0, H))))
+    case["account"] = gen.account(rnd)
     r = rnd.random()
     if r < 0.1:
         s, e = 0, 0
